@@ -1081,7 +1081,7 @@ unsigned int CppCheck::checkInternal(const FileWithDetails& file, const std::str
 
             if (analyzerInformation)
                 mLogger->setAnalyzerInfo(nullptr);
-            return 0;
+            return mLogger->exitcode();
         }
 
 #ifdef HAVE_RULES
